@@ -118,8 +118,15 @@ Definition activate (now : N) (dr : driver) : list slot * driver :=
                         end;
          scheduled := scheduled dr |}).
 
+(* SimTime::MAX: the deadline of a far-future Sleep (Sleep::far_future, or now + d = MAX)
+   and at the same time the "no wake-up scheduled" value of Driver::next_wakeup.  In the
+   wire format of the runners it is the largest representable number, 2^62 - 1. *)
+Definition TMAX : N := 4611686018427387903.
+
+(* `next < self.next_wakeup` with next_wakeup = None standing for SimTime::MAX: a slot whose
+   deadline is SimTime::MAX never gets a wake-up event *)
 Definition earlier (t : N) (nw : option N) : bool :=
-  match nw with None => true | Some w => t <? w end.
+  match nw with None => t <? TMAX | Some w => t <? w end.
 
 (* deactivate: if let Some(t) = next() { if t < next_wakeup { next_wakeup = t; rt.add(AsyncWakeupEvent, t) } }.
    Returns the wake-up that was put into the event set. *)
